@@ -133,7 +133,24 @@ def build(env, reps):
             s.call("decap", skr=sk, enc="$pe.enc", cls="sibling")
     build_toy(env, cw, g, reps)
     build_mock_kem(env, cw, g, reps)
+    build_special_scalars(env, cw, g)
     return cw
+
+
+def build_special_scalars(env, cw, g):
+    """X25519 private keys with an algebraic peculiarity: 5*l - 1 (clamped, acts as -1: DH(k, P) has P's own u-coordinate)"""
+    s = cw.session(0x0020, 1, 1, sid="spx")
+    sk = "a023cdd083ef5bb82f10d62e59e15a6800000000000000000000000000000050"
+    s.call("sk_to_pk", sk=sk, out="kM", cls="special:minus_one")
+    gen.add_keys(s, g, 0x0020, "kS")
+    for _ in range(3):
+        rng = g.raw(32).hex() + "aa" * 8
+        s.call("encap", pkr="$kM.pk", rng=rng, out="e", cls="special:minus_one")
+        s.call("decap", skr=sk, enc="$e.enc", cls="special:minus_one")
+        s.call("encap", pkr="$kM.pk", sks="$kS.sk", pks="$kS.pk", rng=rng, out="a", cls="special:minus_one")
+        s.call("decap", skr=sk, enc="$a.enc", pks="$kS.pk", cls="special:minus_one")
+        s.call("encap", pkr="$kS.pk", sks=sk, pks="$kM.pk", rng=rng, out="b", cls="special:minus_one")
+        s.call("decap", skr="$kS.sk", enc="$b.enc", pks="$kM.pk", cls="special:minus_one")
 
 
 def build_mock_kem(env, cw, g, reps):
